@@ -478,7 +478,7 @@ func RunBuild(env *Env, req BuildReq, logOff int) (res BuildResult, newOff int) 
 			// After a cyclic-dependency error the runner returns while other targets may still be
 			// running (or not even started); wait until the goroutines of this run are gone
 			// before looking at the events or touching the tree again.
-			settleGoroutines(baseGoroutines)
+			settleGoroutines(baseGoroutines, rec)
 		}
 		if err != nil {
 			res.RunErr = err.Error()
@@ -686,7 +686,7 @@ func (s *Sim) WatchBuild(req BuildReq) (res BuildResult) {
 	}
 	if err := s.sess.proj.Run(l, &dawn.RunOptions{Always: req.Always, DryRun: req.DryRun}); err != nil {
 		res.RunErr = err.Error()
-		settleGoroutines(baseGoroutines)
+		settleGoroutines(baseGoroutines, s.sess.rec)
 	}
 	return res
 }
@@ -759,23 +759,32 @@ func (s *Sim) OldFormatRecord(id int) bool {
 	return os.WriteFile(path, out, 0o644) == nil
 }
 
-// settleGoroutines waits until the goroutines of a failed run are gone: until the count is back at its
-// value from before the run, or has not moved for two seconds (goroutines parked for good), at most a
-// minute. Under a loaded machine stragglers of a run that ended with a cycle error can take seconds.
-func settleGoroutines(base int) {
-	last, same := -1, 0
+// settleGoroutines waits until the goroutines of a failed run have finished. A run that ends with an
+// error (a cyclic dependency in particular) returns while other targets are still running; their
+// events and log lines belong to this run. The number of goroutines from before the run is no reliable
+// baseline (goroutines of earlier failed runs may be parked for good), so the run counts as settled
+// when neither the goroutine count nor the number of recorded events has moved for 25 ms (count back
+// where it started) or for a second (count still above). At most a minute.
+func settleGoroutines(base int, rec *Recorder) {
+	lastN, lastE, same := -1, -1, 0
 	for i := 0; i < 12000; i++ {
 		n := runtime.NumGoroutine()
-		if n <= base {
-			return
+		e := 0
+		if rec != nil {
+			rec.mu.Lock()
+			e = len(rec.Events)
+			rec.mu.Unlock()
 		}
-		if n == last {
+		if n == lastN && e == lastE {
 			same++
-			if same >= 400 {
+			// back at (or below) the count from before the run: 25 ms without movement will do -
+			// the count alone is not trusted, stragglers of an earlier run may have ended meanwhile;
+			// above it: a full second
+			if same >= 200 || (n <= base && same >= 5) {
 				return
 			}
 		} else {
-			last, same = n, 0
+			lastN, lastE, same = n, e, 0
 		}
 		time.Sleep(5 * time.Millisecond)
 	}
